@@ -100,6 +100,9 @@ def _create(st):
     op = st["op"]
     if op == "ctor":
         return URL(U(st["s"]), encoded=st.get("encoded", False))
+    if op == "split":                    # URL(SplitResult(...), encoded=True): a URL holding exactly these five parts
+        from urllib.parse import SplitResult
+        return URL(SplitResult(*[U(p) for p in st["val"]]), encoded=True)
     if op == "build":
         kw = {}
         k = st["kw"]
@@ -178,7 +181,7 @@ def _apply(u, st, other):
     raise ValueError(op)
 
 
-CREATORS = ("ctor", "build")
+CREATORS = ("ctor", "build", "split")
 
 
 class _NotApplicable(Exception):
